@@ -215,15 +215,6 @@ Proof.
 Qed.
 
 (* ------------------------------------------------------------------ iteration over the first dimension *)
-Fixpoint yields (k : nat) (evs : list iev) (obs : list iobs) : list nat :=
-  match evs, obs with
-  | Next k' :: es, ORow r :: os => if k' =? k then r :: yields k es os else yields k es os
-  | _ :: es, _ :: os => yields k es os
-  | _, _ => []
-  end.
-
-Definition count_next (k : nat) (evs : list iev) : nat :=
-  length (filter (fun e => match e with Next k' => k' =? k | NewIter => false end) evs).
 
 Lemma nth_error_upd_nth {X} (v : X) : forall l k k', k < length l ->
   nth_error (upd_nth k v l) k' = if k' =? k then Some v else nth_error l k'.
